@@ -12,7 +12,8 @@ EXPLANATION = (
     "to add_pending_resolve, which schedules Command::Resolve at now + 500 ms, retried while try_count < 3, and "
     "query_unresolved asks ANY for the instance or A+AAAA for the SRV host; (d) a new browse is answered from the cache "
     "before the first query.  This decides necessary plumbing, not 'no later than the next scheduling step' nor "
-    "behaviour under loss/duplication.")
+    "behaviour under loss/duplication."
+    " (e) A received record set is kept iff some PTR in it is for a browsed type: the is_for_us flag is cleared only under !service_queriers.contains_key.")
 UNDECIDED = ["'no later than the daemon's next scheduling step' (timing)", "behaviour under loss, duplication and reordering of packets",
              "escaping of instance names on the way in (value-level)", "records arriving in packets that are 'not for us' (is_for_us heuristics, value-level)"]
 
